@@ -67,10 +67,15 @@ def sites():
 
 
 def sh(cmd, cwd, timeout):
+    # own process group, so that a mutant whose tests do not terminate is stopped together with the test binaries it spawned
+    p = subprocess.Popen(cmd, cwd=cwd, shell=True, stdout=subprocess.PIPE, stderr=subprocess.STDOUT, text=True, start_new_session=True)
     try:
-        p = subprocess.run(cmd, cwd=cwd, shell=True, stdout=subprocess.PIPE, stderr=subprocess.STDOUT, timeout=timeout, text=True)
-        return p.returncode, p.stdout
+        out, _ = p.communicate(timeout=timeout)
+        return p.returncode, out
     except subprocess.TimeoutExpired:
+        os.killpg(p.pid, 9)
+        subprocess.run("pkill -9 -f /tmp/rustdoctest", shell=True)
+        p.communicate()
         return 124, 'timeout'
 
 
@@ -106,9 +111,11 @@ def main():
         open(path, 'w').write('\n'.join(lines))
         rec = {'file': f, 'line': i + 1, 'before': old.strip(), 'after': lines[i].strip(), 'op': '%s -> %s' % (pat, rep)}
         t0 = time.time()
-        rc, out = sh('CARGO_NET_OFFLINE=true cargo test --workspace --no-fail-fast --offline 2>&1 | grep -E "^test result|^error" ', REPO, 1500)
+        rc, out = sh('CARGO_NET_OFFLINE=true cargo test --workspace --no-fail-fast --offline 2>&1 | grep -E "^test result|^error" ', REPO, 600)
         failed = sum(int(x) for x in re.findall(r'(\d+) failed', out))
-        if '\nerror' in '\n' + out or 'error:' in out or 'error[' in out:
+        if rc == 124 or out == 'timeout':
+            rec['suite'] = 'killed by the suite (does not terminate within 600 s)'
+        elif '\nerror' in '\n' + out or 'error:' in out or 'error[' in out:
             rec['suite'] = 'does not compile'
         elif failed:
             rec['suite'] = 'killed by the suite (%d failed)' % failed
